@@ -9,7 +9,7 @@ use crate::world::World;
 pub const EL_NAMES: &[&str] = &["a", "b", "c", "p:d", "q:e", "f"];
 pub const ATTR_NAMES: &[&str] = &["x", "y", "z", "p:w", "id", "xml:lang", "dflt", "fx", "q:w", "q:x", "p", "q"];
 pub const BAD_NAMES: &[&str] = &["1a", "a b", "a<", "", " ", "a&b", "a x='1'", "x>y", "-a", "a/"];
-pub const ODD_NAMES: &[&str] = &["a:b:c", "zz:a", ":a", "a:"];
+pub const ODD_NAMES: &[&str] = &["a:b:c", "zz:a", ":a", "a:", "xmlnsx", "xmlnsfoo", "xmlx", "xmlns:"];
 pub const PI_TARGETS: &[&str] = &["t", "u", "pi-x", "x", "xm", "X", "xmlx"];
 pub const SAFE_CHARS: &[&str] = &["a", "b", "é", "𝒳", "\u{301}", " ", "1"];
 pub const WS_CHARS: &[&str] = &["\t", "\n"];
@@ -209,6 +209,9 @@ impl<'a> DocGen<'a> {
             }
         } else if self.rng.pct(6) {
             out.push_str(if self.rng.pct(50) { " xmlns=\"\"" } else { " xmlns=\"urn:d2\"" });
+        } else if self.rng.pct(7) {
+            // a nested re-declaration: moving an element across this boundary changes what its prefix means
+            out.push_str(if self.rng.pct(50) { " xmlns:p=\"urn:q\"" } else { " xmlns:q=\"urn:p\"" });
         }
         let na = if self.rng.pct(45) { self.rng.range(1, 3) } else { 0 };
         let mut used: Vec<&str> = vec![];
@@ -618,7 +621,7 @@ impl Gen {
             }
         }
         if markup_ok && self.rng.pct(self.p.markup_pct / 3) {
-            s = self.rng.ps(&["]]>", "--", "?>", "-", "]]", ">", "]", "]>", "a]", "]>b", ">b", "a]]", "-a", "a-", "'", "\"", "'\"", "<!--", "&amp;", "&#60;", "<b/>", "&nope;", "u&nope;v", "&e1;", "a&e2;"]).to_string();
+            s = self.rng.ps(&["]]>", "--", "?>", "-", "]]", ">", "]", "]>", "a]", "]>b", ">b", "a]]", "-a", "a-", "'", "\"", "'\"", "<!--", "&amp;", "&#60;", "<b/>", "&nope;", "u&nope;v", "&e1;", "a&e2;", "é-", "𝒳--", "é]]>", "𝒳?>", "\u{301}-", ">é𝒳", "é<"]).to_string();
         }
         s
     }
@@ -846,6 +849,14 @@ impl Gen {
             if let Some(op) = self.seam_edit(node, &data) {
                 return Some(op);
             }
+        }
+        if matches!(kind, Kind::Comment | Kind::CData) && self.rng.pct(6) {
+            // a piece the node kind must refuse, with multi-byte characters in front of the offending tail:
+            // the refusal has to leave every character of the old data in place
+            let piece = if kind == Kind::Comment { self.rng.ps(&["é-", "𝒳--", "\u{301}-", "aé--b"]) } else { self.rng.ps(&["é]]>", "𝒳]]>x", "\u{301}]]>"]) };
+            self.fault("F1_refused_multibyte_piece");
+            let off = self.offset(len).min(len);
+            return Some(if self.rng.pct(50) { Op::AppendData { node, data: piece.to_string() } } else { Op::InsertData { node, off, data: piece.to_string() } });
         }
         let illegal = self.rng.pct(self.p.illegal_pct);
         let off = if illegal {
@@ -1111,7 +1122,7 @@ impl Gen {
         let texts = self.nodes(w, |n| n.kind == Kind::Text && n.parent.is_some());
         match self.rng.below(9) {
             8 => Some(Proc::StaleRunReplace { el: self.pick_slot(task, &elements)?, piece: None, run: None, new: None, stage: 0 }),
-            7 => Some(Proc::NsDeclare { el: self.pick_slot(task, &elements)?, attr: None, n: self.rng.range(1, 3), stage: 0 }),
+            7 => Some(Proc::NsDeclare { el: self.pick_slot(task, &elements)?, attr: None, n: self.rng.range(1, 5), stage: 0 }),
             5 => {
                 let (a, b) = *self.rng.pick(&[("a]]", ">b"), ("a]", "]>b"), ("]", "]>"), ("]]", ">"), ("x]", "]"), ("-", "-"), ("a", "b")]);
                 Some(Proc::TextPair { el: self.pick_slot(task, &elements)?, a: a.to_string(), b: b.to_string(), node: None, stage: 0 })
@@ -1321,7 +1332,14 @@ impl Gen {
                     }
                     3 => {
                         let out = self.fresh(task);
-                        (Some(Op::RemoveChild { recv: el, old: piece?, out }), Some(Proc::StaleRunReplace { el, piece, run, new, stage: 4 }))
+                        // the piece leaves: removed, or moved into another element
+                        let others: Vec<S> = self.nodes(w, |n| n.kind == Kind::Element).into_iter().filter(|s| *s != el).collect();
+                        let op = if !others.is_empty() && self.rng.pct(50) {
+                            Op::AppendChild { recv: *self.rng.pick(&others), new: piece?, out }
+                        } else {
+                            Op::RemoveChild { recv: el, old: piece?, out }
+                        };
+                        (Some(op), Some(Proc::StaleRunReplace { el, piece, run, new, stage: 4 }))
                     }
                     4 => {
                         let out = self.fresh(task);
@@ -1329,7 +1347,8 @@ impl Gen {
                     }
                     5 => {
                         let out = self.fresh(task);
-                        (Some(Op::ReplaceChild { recv: el, new: new?, old: run?, out }), None)
+                        let op = if self.rng.pct(50) { Op::ReplaceChild { recv: el, new: new?, old: run?, out } } else { Op::RemoveChild { recv: el, old: run?, out } };
+                        (Some(op), None)
                     }
                     _ => (None, None),
                 }
@@ -1337,7 +1356,13 @@ impl Gen {
             Proc::NsDeclare { el, attr, n, stage } => match stage {
                 0 => {
                     let out = self.fresh(task);
-                    (Some(Op::CreateAttr { doc: w.model.nodes[w.model.node_slot(el)?].doc, name: format!("xmlns:n{}", n), out }), Some(Proc::NsDeclare { el, attr: Some(out), n, stage: 1 }))
+                    // n >= 4: a name that merely starts with the letters of the reserved stem
+                    let name = match n {
+                        4 => "xmlnsx".to_string(),
+                        5 => "xmlnsfoo".to_string(),
+                        _ => format!("xmlns:n{}", n),
+                    };
+                    (Some(Op::CreateAttr { doc: w.model.nodes[w.model.node_slot(el)?].doc, name, out }), Some(Proc::NsDeclare { el, attr: Some(out), n, stage: if n >= 4 { 2 } else { 1 } }))
                 }
                 1 => {
                     let a = attr?;
